@@ -53,6 +53,14 @@ from ..util.linkformat import link_header
 IMMUTABLE_PARAMETERS = ("ep", "d", "proxy")
 
 
+def is_parmname(s):
+    """True if s is a parmname of RFC6690, that is, a non-empty sequence of
+    attr-char"""
+    return bool(s) and all(
+        x in string.ascii_letters + string.digits + "!#$&+-.^_`|~" for x in s
+    )
+
+
 class NoActiveRegistration(error.ConstructionRenderableError):
     code = codes.PROXYING_NOT_SUPPORTED
     message = "no registration with that name"
@@ -175,6 +183,12 @@ class CommonRD:
                 for k in registration_parameters.keys()
             ):
                 raise error.BadRequest("Unsuitable parameter for registration")
+
+            # The endpoint lookup writes the parameter names out as link
+            # parameter names, which are not escaped: any other name would make
+            # that lookup unreadable (or read as something else) for everyone
+            if not all(is_parmname(k) for k in registration_parameters.keys()):
+                raise error.BadRequest("Parameter names must be link-format parmnames")
 
             if (
                 is_initial or not self.base_is_explicit
